@@ -176,6 +176,25 @@ fn main() {
                 let want = items.iter().map(|x| x.0).collect::<std::collections::BTreeSet<_>>().len();
                 if r.as_ref().ok() != Some(&want) { bad += 1; println!("BAD threads={} n={} set collect {:?}", threads, n, r.ok()); }
             }
+            // long inputs with pairwise distinct keys (a batching scheme that loses or repeats an item per batch shows only here)
+            for n in [130u32, 257, 600, 1100, 4200] {
+                let r = std::panic::catch_unwind(std::panic::AssertUnwindSafe(|| {
+                    let items: Vec<(u32, u32)> = (0..n).map(|i| (i.wrapping_mul(7919).wrapping_add(13), i)).collect();
+                    let mut want: Vec<u32> = items.iter().map(|x| x.0).collect();
+                    want.sort(); want.dedup();
+                    let mut m: HashMap<u32, u32> = HashMap::new();
+                    m.par_extend(items.clone());
+                    let c: HashMap<u32, u32> = HashMap::from_par_iter(items.clone().into_par_iter());
+                    let s: flurry::HashSet<u32> = flurry::HashSet::from_par_iter(items.iter().map(|x| x.0).collect::<Vec<_>>());
+                    let keys = |m: &HashMap<u32, u32>| { let mut k: Vec<u32> = m.pin().keys().cloned().collect(); k.sort(); k };
+                    let vals_ok = |m: &HashMap<u32, u32>| items.iter().all(|(k, v)| m.pin().get(k) == Some(v));
+                    (keys(&m) == want, keys(&c) == want, s.len() == want.len(), vals_ok(&m) && vals_ok(&c), want.len() - keys(&m).len().min(want.len()))
+                }));
+                match r {
+                    Err(_) => { bad += 1; println!("BAD threads={} n={} long input: panicked", threads, n); }
+                    Ok((a, b, c, d, lost)) => if !(a && b && c && d) { bad += 1; println!("BAD threads={} n={} long input: par_extend ok={} collect ok={} set ok={} values ok={} ({} keys lost by par_extend)", threads, n, a, b, c, d, lost); }
+                }
+            }
         });
     }
     println!("rayon_bad={}", bad);
